@@ -3,18 +3,19 @@ from fractions import Fraction as Fr
 import itertools
 from symnp import core
 from symnp.core import band, bor, bnot, iff, implies
-from .common import POOL, TINY, slice_points
+from .common import POOL, TINY, slice_points, ZIGZAG, TIE7
 from .rdpstubs import Stubs, patched, tagged_points, well_formed, STUB_DOC
 
 PROPERTY = 'C06'
 FUNCTIONS = ['rdp.grdp', 'rdp._grdp', 'rdp.mp_grdp', 'rdp.min_point_rdp', 'rdp.rdp_fixed', 'rdp._rdp_fixed', 'rdp.order_*',
              'evaluation.compute_global_cost / compute_cost / compute_partial_cost with its segment cache (inline layer)']
 STUBS = STUB_DOC
-BOUNDS = dict(quick='L1: n <= 5, {smape, r2} x 2 distances x 3 orderings, symbolic threshold(s), min_points 0..n+1, threshold lists of length 2 (n <= 4); '
-                    'L0: slices through 4 pool curves (one symbolic height, symbolic thresholds) with the real kernels and the real cache',
+BOUNDS = dict(quick='L1: n <= 5 (n = 7 with concrete tent-shaped distances and free scores / global costs), {smape, r2} x 2 distances x 3 orderings, symbolic threshold(s), min_points 0..n+1, threshold lists of length 2 (n <= 4); '
+                    'L0: slices through 4 pool curves and a 7-point curve with tied ordering scores (thorough: plus a 13-point periodic zigzag) (one symbolic height, symbolic thresholds) with the real kernels and the real cache',
               thorough='L1: n <= 6, threshold lists of length <= 3; L0: 12 pool curves, all five metrics')
 ASSUMPTIONS = ['exact real arithmetic (T1)', 't > 0 (t <= 1 for R2)', 'L1: distance, ordering score and global cost are free reals keyed by segment / breakpoint set']
 CONFIG = dict(quick=dict(budget_s=170, case_wall_s=150, max_paths=30000), thorough=dict(budget_s=1750, case_wall_s=1600, max_paths=600000))
+SPECIAL = dict(zigzag=ZIGZAG, tie7=TIE7)
 DIST = ['shortest', 'perpendicular']
 ORD = ['segment', 'triangle', 'area']
 
@@ -32,6 +33,15 @@ def cases(tier, seed):
                     for o in (ORD if not q else (['segment', 'triangle'] if m == 'smape' else ['segment'])):
                         out.append(dict(layer='L0', nra_at_decide=False, fn='grdp', curve=ci, pos=pos, distance=d, order=o, metric=m))
             out.append(dict(layer='L0', nra_at_decide=False, fn='min_point_rdp', curve=ci, pos=pos, nt=2))
+    for o in ('triangle', 'segment'):
+        for pos in ([[]] if q else [[], [1], [3], [5]]):
+            out.append(dict(layer='L0', nra_at_decide=False, fn='grdp', curve='tie7', pos=pos, distance='shortest', order=o, metric='smape', mps=[0, 7]))
+    if not q:
+        for o in ORD:
+            out.append(dict(layer='L0', nra_at_decide=False, fn='grdp', curve='zigzag', pos=[6], distance='shortest', order=o, metric='smape', mps=[0, 12]))
+    for n in ((7,) if q else (7, 8, 9)):
+        for o in ORD:
+            out.append(dict(layer='L1', no_validate=True, fn='grdp', n=n, distance='shortest', order=o, metric='smape', fixed_distances=True, mps=[0, n]))
     for n in range(5 if q else 6, 1, -1):
         for m in ('smape', 'r2'):
             for d in DIST:
@@ -75,10 +85,14 @@ def run(h, case):
         n = case['n']
         pts = tagged_points(h, n)
         st = Stubs(h, n, limit=60 * n * n + 200)
+        if case.get('fixed_distances'):
+            # concrete tent-shaped distances (split in the middle): only the ordering scores, the global costs and t stay free,
+            # which keeps the path count small enough to reach three and more pending segments (ties between non-sibling segments)
+            st.d = lambda l, r, i: Fr(min(i - l, r - i))
         ctxm = patched(h, st)
         G = st.G
     else:
-        X, Y = slice_points(h, POOL[case['curve']], case['pos'])
+        X, Y = slice_points(h, SPECIAL.get(case['curve']) or POOL[case['curve']], case['pos'])
         n = len(X)
         pts = h.argument(h.array([[a, b] for a, b in zip(X, Y)]))
         import contextlib
@@ -98,7 +112,7 @@ def run(h, case):
             ks = kstar(h, S, n, G, metric, t) if n >= 2 else n
             h.prove(R == S.get(ks, list(range(n))), 'grdp returns the shortest member of the fixed-size sequence whose global cost is acceptable (all points if none)')
             sig.append(R)
-            for mp in range(0, n + 2):
+            for mp in (case.get('mps') or range(0, n + 2)):
                 Rm = h.ints(rdp.mp_grdp(pts, h.num(t), mp, dist_enum, cost, order_enum)[0])
                 want = S.get(max(ks, min(mp, n)), None)
                 if want is None:
@@ -139,7 +153,7 @@ def repair(R, case, inputs):
     import numpy as np
     if case['layer'] != 'L0':
         return
-    curve = POOL[case['curve']]
+    curve = SPECIAL.get(case['curve']) or POOL[case['curve']]
     pts = np.array([[float(a), float(Fr(inputs.get('y%d' % i, b)) if i in case['pos'] else b)] for i, (a, b) in enumerate(curve)], dtype=float)
     n = len(pts)
     rdp, M = R.rdp, R.metrics.Metrics
